@@ -515,13 +515,37 @@ def monOp1 (m : Mon) (op : String) (args : List String) (impl : List String) (tr
     | none => (m, "bad-op")
   | _, _ => (m, "bad-op")
 
-def monOp (m : Mon) (op : String) (args : List String) (impl : List String) (trToks : List String := []) : Mon × String :=
+def refOps : List String := ["cfg", "client", "rq", "reply", "writer", "tick", "reset", "srvstate", "pop", "rmclient", "udplisten", "udpsend", "idle"]
+
+def monOp2 (m : Mon) (op : String) (args : List String) (impl : List String) (trToks : List String := []) : Mon × String :=
   let (m', v) := monOp1 m op args impl trToks
   let udp := op = "udplisten" || (m.udp && op ≠ "cfg")
   let m' := { m' with udp := udp }
   if v ≠ "ok" then (m', v)
-  else if ["cfg", "client", "rq", "reply", "writer", "tick", "reset", "srvstate", "pop", "rmclient", "udplisten", "udpsend", "idle"].contains op then
-    (m', refVerdict (" ".intercalate impl) udp)
+  else if refOps.contains op then (m', refVerdict (" ".intercalate impl) udp)
   else (m', v)
+
+/-- C19: an operation executed while one allocation fails. Acceptable: it completes, it drops the packet
+    cleanly, or the process ends deliberately with a non-zero status. Never: a crash or sanitizer report, a
+    malformed or misdirected packet, a request object left unaccounted for. -/
+def monOp (m : Mon) (op : String) (args : List String) (impl : List String) (trToks : List String := []) : Mon × String :=
+  match op, args with
+  | "fault", n :: iop :: iargs =>
+    if impl.any (·.startsWith "crash:") || impl == ["skipped"] then
+      (m, if n = "-1" then "bad sanitizer-or-crash" else "bad C19:crash-or-sanitizer-report-while-an-allocation-failed")
+    else
+    let impl' := (impl.drop 1).filter fun t => !(t.startsWith "allocs:")
+    match impl'.find? (·.startsWith "died:") with
+    | some d =>
+      let status := (((d.drop 5).toString.splitOn "@").head?.getD "0")
+      (m, if status = "0" then "bad C19:terminated-with-status-0-on-allocation-failure" else "ok")
+    | none =>
+      let (m', v) := monOp2 m iop iargs impl' trToks
+      if n = "-1" || v = "ok" then (m', v)
+      else if v = "bad C04:authentic-reply-reset-the-connection" then (m', "ok")   -- a reply that could not be parsed for lack of memory
+      else if ["bad C06:", "bad C17:", "bad C02:", "bad C04:", "bad C11:"].any (v.startsWith ·) then
+        (m', "bad C19:while-an-allocation-failed:" ++ (v.drop 4).toString)
+      else (m', "ok")
+  | _, _ => monOp2 m op args impl trToks
 
 end Drive
